@@ -2,9 +2,10 @@
   C06 – AArch64 invoke lowering (`a64LowerValue` of Model/InvokeLower.lean on the byte machine Spec/InvokeMachineA64.lean).
     * `a64_imm_value`: for every 64-bit immediate and every integer type the value `move_imm_to_reg_arg` moves has the immediate's
       low `size_of(type)` bytes;
-    * `store8_first_and_overflow`: the 8-byte `str` of an immediate stack argument leaves the value's first byte at the argument's
-      address – and also writes the byte 7 places further, whatever was there (the next packed Apple arguments or the caller's
-      locals): the open finding C06-K10 on the byte machine.
+    * `storeBytes_exact`, `a64_imm_stack_machine` (fix C06-21): an immediate stack argument is stored in exactly `size_of(type)`
+      bytes: the immediate's low bytes inside the slot, nothing outside it;
+    * `store8_first_and_overflow`: what an 8-byte store does to a 1-byte slot (the former finding C06-K10: it also writes the byte 7
+      places further – the next packed Apple arguments or the caller's locals).
   The real post-RA lists of every generated AArch64 call are judged by the byte machine (monitor); no list theorem for AArch64.
 -/
 import AsmjitVerif.Model.InvokeLower
@@ -66,5 +67,57 @@ theorem store8_first_and_overflow (m : MA) (a : Int) (v : BitVec 64) :
         byte_setByte_ne _ _ _ _ (by have := ne 1 0 (by decide); simpa using this)]
     simpa using byte_setByte_same m (a + (0 : Nat)) (.num (byteOf v 0))
   · simpa using byte_setByte_same _ (a + (7 : Nat)) (.num (byteOf v 7))
+
+/-- a store of `n` bytes writes exactly `[a, a + n)`: the value's bytes inside, everything else untouched -/
+theorem storeBytes_exact (a : Int) (v : BitVec 64) : ∀ (n : Nat) (m : MA),
+    (∀ j, j < n → (storeBytes m a n v).byte (a + (j : Nat)) = some (.num (byteOf v j))) ∧
+    (∀ b, (b < a ∨ a + (n : Nat) ≤ b) → (storeBytes m a n v).byte b = m.byte b) := by
+  intro n
+  induction n with
+  | zero => intro m; exact ⟨fun j hj => absurd hj (by omega), fun b _ => by simp [storeBytes]⟩
+  | succ n ih =>
+    intro m
+    have hs : storeBytes m a (n + 1) v = (storeBytes m a n v).setByte (a + (n : Nat)) (.num (byteOf v n)) := by
+      simp [storeBytes, List.range_succ, List.foldl_append]
+    obtain ⟨h1, h2⟩ := ih m
+    rw [hs]
+    refine ⟨fun j hj => ?_, fun b hb => ?_⟩
+    · by_cases hjn : j = n
+      · subst hjn; exact byte_setByte_same _ _ _
+      · rw [byte_setByte_ne _ _ _ _ (by omega)]; exact h1 j (by omega)
+    · rw [byte_setByte_ne _ _ _ _ (by omega)]; exact h2 b (by omega)
+
+/-- the store `move_reg_to_stack_arg` selects for a GP argument of `n` bytes held in x register `id` -/
+def stInst (n id : Nat) (off : Int) : XI :=
+  if n = 1 then ⟨.strb, false, [.reg 5 id, .mem a64SpId off 0], false⟩
+  else if n = 2 then ⟨.strh, false, [.reg 5 id, .mem a64SpId off 0], false⟩
+  else if n = 4 then ⟨.str, false, [.reg 5 id, .mem a64SpId off 0], false⟩
+  else ⟨.str, false, [.reg 6 id, .mem a64SpId off 0], false⟩
+
+/-- **AArch64 immediate stack argument (fix C06-21), every immediate, every integer type, any machine state**: `a64LowerValue`
+    emits `mov x, imm'` and a store that writes exactly the `size_of(type)` bytes of the argument's slot – the immediate's low bytes –
+    and nothing outside `[off, off + size_of(type))` (Apple arm64 packs small stack arguments: the neighbours and the caller's
+    locals are not touched; this was the finding C06-K10) -/
+theorem a64_imm_stack_machine (s : LSt) (arg : FuncValue) (hdt : arg.typeId ∈ intTys8) (hr : arg.isReg = false) (imm : BitVec 64)
+    (s' : LSt) (op' : ArgOp) (h : a64LowerValue s arg (.imm imm) = .ok (s', op')) (m : MA) :
+    ∃ i1 i2 m1 m2 w, s'.out = s.out ++ [i1, i2] ∧ InvokeSpecA64.step m i1 = some m1 ∧ InvokeSpecA64.step m1 i2 = some m2 ∧
+      a64ImmValue arg.typeId imm = some w ∧ m2 = storeBytes m1 arg.stackOffset (tySize arg.typeId) w ∧
+      (∀ j, j < tySize arg.typeId → m2.byte ((arg.stackOffset : Int) + (j : Nat)) = some (.num (byteOf w j))) ∧
+      (∀ b, (b < (arg.stackOffset : Int) ∨ (arg.stackOffset : Int) + (tySize arg.typeId : Nat) ≤ b) → m2.byte b = m1.byte b) := by
+  generalize hd : arg.typeId = dt at *
+  unfold a64LowerValue at h
+  simp only [hd, hr, Bool.false_eq_true, if_false] at h
+  cases hw : a64ImmValue dt imm with
+  | none => rw [hw] at h; simp at h
+  | some w =>
+    rw [hw] at h
+    simp only [intTys8, List.mem_cons, List.mem_nil_iff, or_false] at hdt
+    have hex := storeBytes_exact arg.stackOffset w (tySize dt)
+    rcases hdt with rfl | rfl | rfl | rfl | rfl | rfl | rfl | rfl <;>
+      (simp [tySize, LSt.emit] at h; obtain ⟨rfl, _⟩ := h
+       refine ⟨⟨.mov, false, [.reg 6 s.nextV, .imm w], false⟩, stInst (tySize arg.typeId) s.nextV arg.stackOffset, m.setGp s.nextV w, _, w,
+         by simp [stInst, tySize, hd], ?_, ?_, rfl, rfl, (hex _).1, (hex _).2⟩
+       · simp [InvokeSpecA64.step, isGpRt]
+       · simp [InvokeSpecA64.step, stInst, isGpRt, MA.getGp, MA.setGp, gpBytes, a64SpId, tySize, hd])
 
 end AsmjitVerif.C06InvokeA64
